@@ -528,7 +528,7 @@ static void h_op(void)
     if (bad) { h_out("bad-op"); goto SQOBJ_DONE; }
     if (dig) {
       if (add) { sq = esl_sq_CreateDigital(A); for (i = 0; i < n; i++) esl_sq_XAddResidue(sq, b[i]); esl_sq_XAddResidue(sq, eslDSQ_SENTINEL); }
-      else { ESL_DSQ *d = malloc((size_t) n + 2); d[0] = d[n + 1] = eslDSQ_SENTINEL; memcpy(d + 1, b, (size_t) n); sq = esl_sq_CreateDigitalFrom(A, "x", d, n, NULL, NULL, NULL); free(d); }
+      else { ESL_DSQ *d = malloc((size_t) n + 2); d[0] = d[n + 1] = eslDSQ_SENTINEL; memcpy(d + 1, b, (size_t) n); sq = esl_sq_CreateDigitalFrom(A, "x", d, (h_arg("len") && !strcmp(h_arg("len"), "unknown")) ? -1 : n, NULL, NULL, NULL); free(d); }
     } else {
       if (add) { sq = esl_sq_Create(); for (i = 0; i < n; i++) esl_sq_CAddResidue(sq, (char) b[i]); esl_sq_CAddResidue(sq, 0); }
       else sq = esl_sq_CreateFrom("x", (char *) b, NULL, NULL, NULL);
@@ -551,6 +551,20 @@ static void h_op(void)
         else if (!strcmp(tok, "r")) { st = esl_sq_ReverseComplement(sq); sprintf(tmp, "r=%s ", h_status(st)); }
         else if (!strcmp(tok, "g")) { int64_t nsafe = -999; st = esl_sq_Grow(sq, &nsafe); sprintf(tmp, "g=%" PRId64 " ", nsafe); }
         else if (!strncmp(tok, "to:", 3)) { st = esl_sq_GrowTo(sq, (int64_t) strtoll(tok + 3, NULL, 10)); sprintf(tmp, "to=%s ", h_status(st)); }
+        else if (!strncmp(tok, "a:", 2)) {
+          /* append K residues ('A' / code 0) and a '+' to every markup line, as the sequence readers do: Grow, store, n++, Grow, terminate */
+          long k, K = strtol(tok + 2, NULL, 10); int64_t nsafe, sum = 0;
+          for (k = 0; k < K; k++) {
+            esl_sq_Grow(sq, &nsafe); sum += nsafe;
+            if (sq->seq) { sq->seq[sq->n] = 'A'; if (sq->ss) sq->ss[sq->n] = '+'; for (x = 0; x < sq->nxr; x++) sq->xr[x][sq->n] = '+'; }
+            else { sq->dsq[sq->n + 1] = 0; if (sq->ss) sq->ss[sq->n + 1] = '+'; for (x = 0; x < sq->nxr; x++) sq->xr[x][sq->n + 1] = '+'; }
+            sq->n++;
+            esl_sq_Grow(sq, &nsafe); sum += nsafe;
+            if (sq->seq) { sq->seq[sq->n] = '\0'; if (sq->ss) sq->ss[sq->n] = '\0'; for (x = 0; x < sq->nxr; x++) sq->xr[x][sq->n] = '\0'; }
+            else { sq->dsq[sq->n + 1] = eslDSQ_SENTINEL; if (sq->ss) sq->ss[sq->n + 1] = '\0'; for (x = 0; x < sq->nxr; x++) sq->xr[x][sq->n + 1] = '\0'; }
+          }
+          sprintf(tmp, "a=%" PRId64 " ", sum);
+        }
         else if (!strcmp(tok, "c:text") || !strcmp(tok, "c:digital")) {
           ESL_SQ *dst = !strcmp(tok, "c:digital") ? esl_sq_CreateDigital(A) : esl_sq_Create();
           st = esl_sq_Copy(sq, dst); sprintf(tmp, "c=%s ", h_status(st));
